@@ -808,6 +808,7 @@ pub fn default_cfg(property: &str, tier: &str, seed: u64, depth: usize) -> Explo
         .ok()
         .and_then(|s| s.parse().ok())
         .unwrap_or_else(|| std::thread::available_parallelism().map(|n| n.get()).unwrap_or(8));
+    let depth = std::env::var("WWMC_DEPTH").ok().and_then(|s| s.parse().ok()).unwrap_or(depth);
     ExploreCfg {
         property: property.to_string(),
         tier: tier.to_string(),
